@@ -135,6 +135,12 @@ def make_case(rnd, big=False):
         sf = stil.parse(text)
         if len(sf.patterns) != npat:
             raise ValueError('parsed %d patterns, the file describes %d' % (len(sf.patterns), npat))
+        if rnd.random() < 0.3:
+            # history: node indices were reassigned by an earlier transformation (the order of creation is no longer the
+            # order of the nodes); the pattern rows follow the circuit's CURRENT port/state ordering
+            c.eliminate_1to1_forks()
+            rec['iface'] = [n.name for n in c.s_nodes]
+            rec['st'] = lsim.struct(c)
         if rnd.random() < 0.35 and len(c.io_nodes) >= 2:
             # history: the same StilFile object was already used, then the circuit's port order was changed in place
             sf.tests(c), sf.responses(c)
